@@ -1,7 +1,7 @@
 """C16 — ignore flags only narrow the set of diagnostics."""
 import copy, re
 from vlib import core, gen, runsc
-from vlib.props import c06
+from vlib.props import c05, c06, c07
 
 LEVEL = "proof"
 TEXT = ("flags_narrow / accept_iff_rest_ignored / accepted_output_flag_independent are Lean theorems over the runner model for every world and every flag "
@@ -37,6 +37,19 @@ def mixes(rng, n):
         if mask & 16:
             c["services"]["d e"] = {"constructor": "New A"}
         out.append(("mask%02d%s" % (mask, miss), c))
+    # further constellations: a contextual service that sorts FIRST next to a shared service with an undefined dependency;
+    # a parameter cycle one of whose members references an undefined parameter before the reference that closes the cycle
+    c = copy.deepcopy(base)
+    c["services"]["A0ctx"] = {"constructor": "fx.NewA", "scope": "contextual"}      # 'A' sorts before every lower-case name
+    c["services"]["b"]["scope"] = "shared"
+    c["services"]["b"]["arguments"].append("@zz_undefined")
+    out.append(("ctx-first+missing-service", c))
+    c = copy.deepcopy(base)
+    c["parameters"].update({"baseUrl": "%scheme%://%host%/api", "host": "mirror.%baseUrl%"})
+    out.append(("param-cycle+missing-param-before", c))
+    c = copy.deepcopy(base)
+    c["parameters"].update({"baseUrl": "%host%:%port%", "host": "mirror.%baseUrl%"})
+    out.append(("param-cycle+missing-param-after", c))
     for i in range(n):
         c = gen.gen_config(rng)
         if i % 2:
@@ -44,6 +57,29 @@ def mixes(rng, n):
         c.setdefault("meta", {})["pkg"] = "gen"
         out.append(("rand%03d" % i, c))
     return out
+
+
+def expected_classes(cfg):
+    """ground truth, from the documentation-level oracles of C05/C06/C07: which diagnostic classes the configuration has"""
+    mp, ms = c06.expected_missing(cfg)
+    out = set()
+    if c05.expected_pairs(cfg):
+        out.add("scope")
+    if c07.doc_cyclic(cfg):
+        out.add("cycles")
+    if mp:
+        out.add("params")
+    if ms:
+        out.add("services")
+    return out
+
+
+def class4(line):
+    if line.startswith("output.ValidateServicesScopes:"):
+        return "scope"
+    if line.startswith("output.ValidateCircularDeps:"):
+        return "cycles"
+    return classify(line)
 
 
 def classify(line):
@@ -77,6 +113,17 @@ def run(ctx, n=None):
         dist["accepted_noflags"] += c0["exit"] == 0
         classes = {classify(l) for l in e0}
         dist["mixed_classes"] += len(classes) > 1
+        # the flag-free run against the ground truth: exactly the classes the configuration really has (a flag can only
+        # be judged to "suppress exactly its class" if the unsuppressed list is right in the first place)
+        if reaches:
+            try:
+                want_cls = expected_classes(cfg)
+            except Exception:
+                want_cls = None
+            got_cls = {class4(l) for l in e0} - {"other"}
+            if want_cls is not None and got_cls != want_cls:
+                violations.append({"sig": "diagnostic-classes", "what": "without flags the diagnostics are of classes %r, the configuration has %r: %r" % (sorted(got_cls), sorted(want_cls), e0[:4]),
+                                   "scenario": {"name": name, "files": {"cfg/a.yaml": gen.yaml_doc(cfg)}, "patterns": ["cfg/a.yaml"], "out": "out/gen.go", "pre": "absent", "flags": {}}})
         if reaches and e0:
             nontriv.add(core.canon(sorted(classes)) + name[:4])
         for fl, c, e in obs[1:]:
